@@ -56,6 +56,16 @@ def parse_spec(path):
                 elif word in ('struct', 'enum', 'const'):
                     f_, n_ = rest.split()
                     items.append(dict(kind=word, file=f_, name=n_, spec=path, line=ln))
+                elif word in ('trait', 'implblock'):
+                    parts = [x.strip() for x in rest.split('|')]
+                    drop = None
+                    if parts[-1].startswith('drop='):
+                        drop = parts.pop()[5:]
+                    if word == 'trait':
+                        f_, n_ = parts[0].split()
+                        items.append(dict(kind='trait', file=f_, name=n_, drop=drop, spec=path, line=ln))
+                    else:
+                        items.append(dict(kind='implblock', file=parts[0], header=parts[1], drop=drop, spec=path, line=ln))
                 elif word == 'implconsts':
                     f_, h_ = [x.strip() for x in rest.split('|')]
                     items.append(dict(kind='implconsts', file=f_, header=h_, spec=path, line=ln))
@@ -418,6 +428,31 @@ class Weaver:
                 txt = 'pub ' + txt
             self.emit(txt, ('repo', it['file'], r['line_first']))
             self.funcs.append(dict(kind='const', name=it['name'], file=it['file'], lines=[r['line_first'], r['line_last']], sha256=r['sha256']))
+        elif k in ('trait', 'implblock'):
+            s = self.src(it['file'])
+            if k == 'trait':
+                r = s.find_item(r'(?:unsafe\s+)?trait', it['name'])
+                txt = r['text']
+                first = r['line_first']
+            else:
+                want = norm(it['header'])
+                cands = [b for b in s.impl_blocks() if b[0] == want]
+                if not cands:
+                    raise ExtractError('%s: no block with header `%s`' % (it['file'], want))
+                (_h, hstart, ob, cb, _a) = cands[0]
+                txt = s.text[hstart:cb + 1]
+                first = s.line_of(hstart)
+            from extract import strip_comments
+            txt = strip_comments(txt)
+            txt = re.sub(r'(?m)^\s*#\[[^\]]*\]\s*$', '', txt)
+            if it['drop']:
+                txt = '\n'.join(l for l in txt.split('\n') if not re.search(it['drop'], l))
+                self.rewrites.append('%s %s: dropped lines matching /%s/' % (k, it.get('name') or it.get('header'), it['drop']))
+            txt = re.sub(r'^pub\s*\([^)]*\)', 'pub', txt)
+            self.emit(txt, ('repo', it['file'], first))
+            import hashlib
+            self.funcs.append(dict(kind=k, name=it.get('name') or it.get('header'), file=it['file'], lines=[first, first + txt.count('\n')],
+                                   sha256=hashlib.sha256(txt.encode()).hexdigest()))
         elif k == 'implconsts':
             s = self.src(it['file'])
             items = s.impl_assoc(it['header'])
